@@ -1,7 +1,8 @@
 (* C03 - property theorems only (proofs in C03/RefOrder.v, C03/Traced.v, C03/MechLemmas.v,
    C03/Witness.v).
    Ref  = the shared fuelled reference interpreter [Lang.Sem.eval/exec], [Lang.Print.run].
-   Mech = [C03.EvalOrder.ieval/iexec/irun]: Ref with the implementation's five deviations behind switches.
+   Mech = [C03.EvalOrder.ieval/iexec/irun]: Ref with five deviations behind switches; [dev_pinned] = today's
+   implementation (two left on: typed re-evaluation of subscript lists, println retry; three repaired).
    Every statement about Ref is for every function table, fuel, operand expression and state. *)
 From Coq Require Import List ZArith Bool Arith.
 From Cb Require Import Lang.Syntax Lang.Sem Lang.Respect Lang.Theorems Lang.Print.
@@ -221,42 +222,62 @@ Theorem both_operands_invisible_when_rhs_quiet : forall ea eb s,
 Proof. intros. split; [apply ns_and_invisible|apply ns_or_invisible]. Qed.
 Print Assumptions both_operands_invisible_when_rhs_quiet.
 
-(* ---------------------------------------------------------------- the pinned implementation does not satisfy the property *)
-(* DESIGN section 7 #5: both operands of && are evaluated *)
-Theorem mech_short_circuit_refuted : exists fuel p,
-  run fuel p = (lines [1; 200], Finished) /\ irun dev_pinned fuel p = (lines [1; 2; 200], Finished).
-Proof. exists 50%nat, w_sc. exact w_sc_runs. Qed.
-Print Assumptions mech_short_circuit_refuted.
+(* ---------------------------------------------------------------- Mech after the repairs a51b767, 2967bbb, df79998 *)
+(* formerly mech_short_circuit_refuted / mech_and_skips_rhs_refuted: with d_noshort off, && and || of
+   Mech are Ref's short-circuit combinators over Mech's operand evaluation, so the skipping laws hold of
+   Mech for every operand, typed flag, fuel and state *)
+Theorem mech_short_circuit : forall D funcs k ty a b, d_noshort D = false ->
+  ieval D funcs (S k) ty (EAnd a b) = sc_and (ieval D funcs k ty a) (ieval D funcs k ty b) /\
+  ieval D funcs (S k) ty (EOr a b) = sc_or (ieval D funcs k ty a) (ieval D funcs k ty b).
+Proof. intros. split; [apply mech_and_eq|apply mech_or_eq]; assumption. Qed.
+Print Assumptions mech_short_circuit.
 
-(* and_skips_rhs is false of Mech: left operand 0, yet the evaluation fails in the right operand *)
-Theorem mech_and_skips_rhs_refuted : exists funcs k ty a b s,
-  ieval dev_pinned funcs k ty a s = (Val 0, s) /\ ieval dev_pinned funcs (S (S k)) ty (EAnd a b) s = (Fail EDiv0, s).
-Proof.
-  exists [], 1%nat, false, (ENum 0), (EBin Div (ENum 1) (ENum 0)), (state_with []). exact mech_and_law_fails.
-Qed.
-Print Assumptions mech_and_skips_rhs_refuted.
+Theorem mech_and_skips_rhs : forall D funcs k ty a b s s1, d_noshort D = false ->
+  ieval D funcs k ty a s = (Val 0, s1) -> ieval D funcs (S k) ty (EAnd a b) s = (Val 0, s1).
+Proof. exact mech_and_skips_rhs_l. Qed.
+Print Assumptions mech_and_skips_rhs.
 
-(* guard_protects is false of Mech: d = 0 and `d != 0 && n / d > 1` ends the program with a division by zero *)
-Theorem mech_guard_protects_refuted : exists fuel p,
-  run fuel p = (lines [0], Finished) /\ irun dev_pinned fuel p = ([], Failed EDiv0).
-Proof. exists 50%nat, w_guard. exact w_guard_runs. Qed.
-Print Assumptions mech_guard_protects_refuted.
+Theorem mech_or_skips_rhs : forall D funcs k ty a b s x s1, d_noshort D = false ->
+  ieval D funcs k ty a s = (Val x, s1) -> x <> 0 -> ieval D funcs (S k) ty (EOr a b) s = (Val 1, s1).
+Proof. exact mech_or_skips_rhs_l. Qed.
+Print Assumptions mech_or_skips_rhs.
 
-(* m[t(1)][t(0)] = t(7): value twice, then the indices right to left *)
-Theorem mech_indices_left_to_right_refuted : exists fuel p,
-  run fuel p = (lines [7; 1; 0; 7], Finished) /\ irun dev_pinned fuel p = (lines [7; 7; 0; 1; 7], Finished).
-Proof. exists 50%nat, w_idx. exact w_idx_runs. Qed.
-Print Assumptions mech_indices_left_to_right_refuted.
+(* formerly mech_guard_protects_refuted: d = 0 -> `d != 0 && X` is 0 in Mech, for any X *)
+Theorem mech_guard_protects : forall D funcs k ty d x s, d_noshort D = false ->
+  m_read d [] s = (Val 0, s) ->
+  ieval D funcs (S (S (S k))) ty (EAnd (EBin Ne (EVar d) (ENum 0)) x) s = (Val 0, s).
+Proof. exact mech_guard_zero_any. Qed.
+Print Assumptions mech_guard_protects.
 
-(* DESIGN section 7 #41: a[0] = f() calls f twice *)
-Theorem mech_operand_once_refuted : exists fuel p,
-  run fuel p = (lines [5; 3], Finished) /\ irun dev_pinned fuel p = (lines [5; 5; 3], Finished).
-Proof. exists 50%nat, w_elem. exact w_elem_runs. Qed.
-Print Assumptions mech_operand_once_refuted.
+(* formerly mech_indices_left_to_right_refuted / mech_operand_once_refuted: with d_rtl and d_elemcall off an
+   element store of Mech is: the value (once), the subscripts left to right (each once), the write *)
+Theorem mech_elem_store_value_then_indices_in_order : forall D funcs k a idx e s,
+  d_rtl D = false -> d_elemcall D = false ->
+  iexec D funcs (S k) (SAssign (LIdx a idx) None e) s =
+  (v <- ieval D funcs k true e ;; is_ <- eval_list (ieval D funcs k false) idx ;; m_write a is_ v) s.
+Proof. exact mech_elem_store_order. Qed.
+Print Assumptions mech_elem_store_value_then_indices_in_order.
 
-(* long x = m[t(1)][t(2)]: the index list is evaluated twice (and right to left) *)
+Theorem mech_index_lists_left_to_right : forall D ev es, d_rtl D = false ->
+  index_list D ev es = eval_list (ev false) es.
+Proof. exact mech_index_list_ltr. Qed.
+Print Assumptions mech_index_lists_left_to_right.
+
+(* the model of today's implementation has those three switches off, and the former witnesses
+   (DESIGN section 7 #5, #41, the index-order one) now run as the reference semantics says *)
+Theorem mech_pinned_has_the_repairs :
+  d_noshort dev_pinned = false /\ d_rtl dev_pinned = false /\ d_elemcall dev_pinned = false /\
+  irun dev_pinned 50 w_sc = run 50 w_sc /\ run 50 w_sc = (lines [1; 200], Finished) /\
+  irun dev_pinned 50 w_guard = run 50 w_guard /\ run 50 w_guard = (lines [0], Finished) /\
+  irun dev_pinned 50 w_idx = run 50 w_idx /\ run 50 w_idx = (lines [7; 1; 0; 7], Finished) /\
+  irun dev_pinned 50 w_elem = run 50 w_elem /\ run 50 w_elem = (lines [5; 3], Finished).
+Proof. split; [reflexivity|]. split; [reflexivity|]. split; [reflexivity|]. exact former_witnesses_conform. Qed.
+Print Assumptions mech_pinned_has_the_repairs.
+
+(* ---------------------------------------------------------------- the pinned implementation still violates the property in two ways *)
+(* long x = m[t(1)][t(2)]: the index list is evaluated twice in a typed context *)
 Theorem mech_indices_once_refuted : exists fuel p,
-  run fuel p = (lines [1; 2; 0], Finished) /\ irun dev_pinned fuel p = (lines [2; 1; 2; 1; 0], Finished).
+  run fuel p = (lines [1; 2; 0], Finished) /\ irun dev_pinned fuel p = (lines [1; 2; 1; 2; 0], Finished).
 Proof. exists 50%nat, w_twice. exact w_twice_runs. Qed.
 Print Assumptions mech_indices_once_refuted.
 
